@@ -208,6 +208,7 @@ pub fn run(ctx: &mut Ctx) {
     ctx.assumptions = vec![
         "add_parent(2,1) together with add_parent(1,2) would form a cycle and is outside the quantifier (acyclic graphs)".into(),
         "one name per record id".into(),
+        "decoder space: Ontology::from_bytes documents HpoError::DoesNotExist for invalid references to terms; parent records naming absent terms are not included (the documentation only promises a possible panic there)".into(),
     ];
     let p2_alpha: [(u32, u32); 5] = [(1, 2), (1, 3), (3, 1), (2, 3), (3, 2)];
     let mut p3_alpha: Vec<Op3> = vec![];
@@ -239,6 +240,55 @@ pub fn run(ctx: &mut Ctx) {
             start = end;
             if ctx.out_of_time() {
                 break;
+            }
+        }
+    }
+
+    // ---- the same closure requirement on the decoder's use of the builder: a gene / disease record that
+    // names an absent term must not yield an ontology (documented: HpoError::DoesNotExist)
+    ctx.space("decoder/records-naming-absent-terms", "binary v1/v2/v3 files (terms 1, 118, 200) whose gene, OMIM or ORPHA record lists term 300 or 9999999 (absent), at every position of the record's term list and with 0..2 valid terms around it: from_bytes must return an error (or panic as documented) - if it returns an ontology, the whole read API must be walkable");
+    {
+        use crate::encode::{encode, EncOpts};
+        let mut base = Facts::default();
+        base.version = (2024, 2, 29);
+        base.terms = vec![Facts::term(1, "All"), Facts::term(118, "Phenotypic abnormality"), Facts::term(200, "A")];
+        base.edges = vec![(118, 1), (200, 118)];
+        for kind in [Kind::Gene, Kind::Omim, Kind::Orpha] {
+            for absent in [300u32, 9_999_999, 2] {
+                for valid in [vec![], vec![200u32], vec![118, 200]] {
+                    for pos in 0..=valid.len() {
+                        for version in [3u8, 2, 1] {
+                            if version < 3 && kind == Kind::Orpha {
+                                continue;
+                            }
+                            if !ctx.take() {
+                                continue;
+                            }
+                            ctx.state();
+                            ctx.exec();
+                            ctx.validated();
+                            ctx.nontrivial();
+                            let mut f = base.clone();
+                            let mut terms = valid.clone();
+                            terms.insert(pos, absent);
+                            for t in &terms {
+                                f.anns.push(Facts::ann(kind, 7, "Seven", Some(*t)));
+                            }
+                            f.anns.push(Facts::ann(kind, 8, "Eight", Some(118)));
+                            ctx.transitions(f.n_steps());
+                            let bytes = encode(&f, &EncOpts::v(version));
+                            let case = || json!({"facts": f.to_json(), "absent_term": absent, "format_version": version});
+                            match crate::drive::from_bytes(&bytes) {
+                                Ok(Err(_)) | Err(_) => {}
+                                Ok(Ok(ont)) => match Obs::of(&ont) {
+                                    Err(i) => ctx.violation("Ontology::from_bytes", "returns an ontology with a dangling term id (read API panics) for a record naming an absent term", json!({"case": case(), "observed": i.what})),
+                                    Ok(_) => ctx.violation("Ontology::from_bytes", "accepts a record naming an absent term", json!({"case": case()})),
+                                },
+                            }
+                            ctx.sample(|| json!({"kind": kind.name(), "record_terms": terms, "absent": absent, "format_version": version}));
+                        }
+                    }
+                }
             }
         }
     }
